@@ -352,6 +352,69 @@ def run_rlimit(acc, shard):
             c.close()
 
 
+# the kernel's own table: resource number and the label of its row in /proc/<pid>/limits (include/uapi/asm-generic/resource.h,
+# fs/proc/base.c) - independent of every constant psutil or Python exports
+KERNEL_RLIMITS = {
+    "RLIMIT_CPU": (0, "Max cpu time"), "RLIMIT_FSIZE": (1, "Max file size"), "RLIMIT_DATA": (2, "Max data size"),
+    "RLIMIT_STACK": (3, "Max stack size"), "RLIMIT_CORE": (4, "Max core file size"), "RLIMIT_RSS": (5, "Max resident set"),
+    "RLIMIT_NPROC": (6, "Max processes"), "RLIMIT_NOFILE": (7, "Max open files"), "RLIMIT_MEMLOCK": (8, "Max locked memory"),
+    "RLIMIT_AS": (9, "Max address space"), "RLIMIT_LOCKS": (10, "Max file locks"), "RLIMIT_SIGPENDING": (11, "Max pending signals"),
+    "RLIMIT_MSGQUEUE": (12, "Max msgqueue size"), "RLIMIT_NICE": (13, "Max nice priority"), "RLIMIT_RTPRIO": (14, "Max realtime priority"),
+    "RLIMIT_RTTIME": (15, "Max realtime timeout"),
+}
+
+
+def run_rlimit_names(acc):
+    """Every RLIMIT_* name psutil exports: its number is the kernel's, get reads the row of that label in /proc/<pid>/limits,
+    and lowering its soft limit moves that row and no other."""
+    c = Ctx(acc)
+    ps = c.ps
+    try:
+        def rows():
+            return {k: tuple(-1 if x == "unlimited" else int(x) for x in v) for k, v in proc_limits(c.target.pid).items()}
+        names = sorted(n for n in dir(ps) if n.startswith("RLIMIT_"))
+        acc.extra["rlimit_names_exported"] = names
+        for name in names:
+            viols = []
+            case = dict(kind="rlimit_name", res=name)
+            if name not in KERNEL_RLIMITS:
+                acc.case(case, False, [("rlimit_name_unknown_to_the_kernel_table", name)])
+                continue
+            num, label = KERNEL_RLIMITS[name]
+            val = getattr(ps, name)
+            acc.count("rlimit_names_checked")
+            if int(val) != num:
+                viols.append(("rlimit_constant_wrong", f"psutil.{name} == {int(val)}, the kernel's number is {num}"))
+            before = rows()
+            got = tuple(c.p.rlimit(val))
+            acc.count("kernel_readbacks")
+            inf = resource.RLIM_INFINITY
+            norm = tuple(-1 if x in (inf, -1) else x for x in got)
+            if norm != before[label]:
+                viols.append(("rlimit_get_wrong", f"{name}: psutil {got} but /proc/<pid>/limits '{label}' says {before[label]}"))
+            soft, hard = before[label]
+            new_soft = (hard if hard != -1 else 1 << 40) // 2 + 12345 if (soft == -1 or soft > 1 << 20) else max(soft - 1, 0)
+            if name in ("RLIMIT_AS", "RLIMIT_DATA", "RLIMIT_STACK", "RLIMIT_NOFILE", "RLIMIT_NPROC"):
+                new_soft = max(new_soft, 1 << 20 if name != "RLIMIT_NOFILE" else 64)
+                if hard != -1:
+                    new_soft = min(new_soft, hard)
+            r, v2, tb = c.guarded(lambda: c.p.rlimit(val, (new_soft, inf if hard == -1 else hard)), case)
+            viols += v2
+            acc.count("sets_checked")
+            if r[0] == "ok":
+                after = rows()
+                moved = [k for k in after if after[k] != before.get(k)]
+                if after[label][0] != new_soft:
+                    viols.append(("rlimit_set_wrong_resource", f"{name}: soft limit set to {new_soft}; row '{label}' says {after[label]}; rows that moved: {moved}"))
+                if [k for k in moved if k != label]:
+                    viols.append(("rlimit_changed_other_resource", f"set {name} moved {[(k, before.get(k), after[k]) for k in moved if k != label]}"))
+            elif r[0] != "AccessDenied":
+                viols.append((f"rlimit_set_raised:{r[0]}", f"{name}: {r[1]!r}"))
+            acc.case(case, True, viols)
+    finally:
+        c.close()
+
+
 def run_sinks(acc):
     """Against the simulated kernel: what reaches the syscall wrappers. Every valid request produces exactly one sink
     event carrying exactly the requested pid and value; every invalid request produces none."""
@@ -506,6 +569,7 @@ def run_shard(shard):
         run_affinity(acc, shard)
     elif k == "rlimit":
         run_rlimit(acc, shard)
+        run_rlimit_names(acc)
     elif k == "sinks":
         run_sinks(acc)
         acc.exhaustive = True
@@ -524,6 +588,8 @@ def run_shard(shard):
                 run_bigcpu(acc, dict(bigcpu=case["possible"]))
             elif kind.startswith("affinity"):
                 run_affinity(acc, dict(seed=0, part=0, nrand=20))
+            elif kind == "rlimit_name":
+                run_rlimit_names(acc)
             elif kind.startswith("rlimit"):
                 run_rlimit(acc, {})
             elif kind.startswith("sink_"):
